@@ -181,6 +181,11 @@ class HeapMixin:
         if not isinstance(obj, SObj):
             raise Unsupported(f"setattr on {obj!r}")
         cls = obj.cls
+        if isinstance(cls, type) and not (cls.__module__ or "").startswith("hypercorn") and self.model_for(cls) is not None:
+            # an attribute of a modelled library object (cancel_scope.shield = True): a plain field
+            self.note_write(obj, attr, fr)
+            obj.fields[attr] = v
+            return
         if isinstance(cls, type):
             p = getattr(cls, "__dataclass_params__", None)
             if p is not None and p.frozen and not fr.fn_qual.endswith("__init__") and not getattr(fr, "allow_frozen", False):
